@@ -248,6 +248,14 @@ func (x *Exec) spec(env *SpecEnv, e Expr) SpecVal {
 			if sl, ok := base.Ty.Underlying().(*types.Slice); ok {
 				return SpecVal{T: x.sliceElem(env.st, base.T, idx.T, sl.Elem()), Ty: sl.Elem()}
 			}
+			if m, ok := base.Ty.Underlying().(*types.Map); ok {
+				// m[k]: the stored value if present, else the zero value
+				_, vals, _ := x.mapNames(m)
+				ks, vs := x.sortOf(m.Key()), x.sortOf(m.Elem())
+				valArr := x.heapGet(env.st, vals, SArr(SInt, SArr(ks, vs)))
+				v := Ite(x.mapHas(env.st, base.T, idx.T, m), Select(Select(valArr, base.T), idx.T), x.zeroTerm(m.Elem()))
+				return SpecVal{T: v, Ty: m.Elem()}
+			}
 		}
 		unsupported("indexing %s", ee.X.exprString())
 	case ESlice:
@@ -1048,6 +1056,39 @@ func (x *Exec) specCall(env *SpecEnv, c ECall) SpecVal {
 	case "seqof":
 		v := x.spec(env, c.Args[0])
 		return x.sliceToSeq(env.st, v)
+	case "callret", "callret0", "callret1":
+		// callret0(f, k) / callret1(f, k): first / second result of the k-th
+		// call of the unknown function value f (ghost call history)
+		f := x.spec(env, c.Args[0])
+		k := x.specIdx(env, c.Args[1])
+		pos := 0
+		if c.Fn == "callret1" {
+			pos = 1
+		}
+		if f.Ty == nil {
+			unsupported("callret: untyped function value")
+		}
+		sig, ok := f.Ty.Underlying().(*types.Signature)
+		if !ok || sig.Results().Len() <= pos {
+			unsupported("callret: %s has no result %d", c.Args[0].exprString(), pos)
+		}
+		rt := sig.Results().At(pos).Type()
+		srt := x.sortOf(rt)
+		name := fmt.Sprintf("$callret!%d!%s", pos, srt)
+		arr := x.heapGet(env.st, name, SArr(SInt, SArr(x.idxSort(), srt)))
+		return SpecVal{T: Select(Select(arr, f.T), k), Ty: rt}
+	case "haskey":
+		// haskey(m, k): k is a key of the Go map m
+		mv := x.spec(env, c.Args[0])
+		k := x.spec(env, c.Args[1])
+		m, ok := mv.Ty.Underlying().(*types.Map)
+		if !ok {
+			unsupported("haskey on non-map %s", c.Args[0].exprString())
+		}
+		if k.Lit {
+			k.T = x.intLit(k.N, x.sortOf(m.Key()))
+		}
+		return SpecVal{T: x.mapHas(env.st, mv.T, k.T, m)}
 	case "atomicval":
 		o := x.specTerm(env, c.Args[0])
 		return SpecVal{T: Select(x.heapGet(env.st, "$atomic", SArr(SInt, x.idxSort())), o)}
@@ -1892,4 +1933,11 @@ func (x *Exec) frameChecks(cfg *Config, env *SpecEnv) {
 		goal := Forall([]Term{o}, Implies(And(conds...), Eq(Select(cur, o), Select(old, o))))
 		x.oblige(cfg, "frame", name, goal, nil, token.NoPos)
 	}
+}
+
+
+func (x *Exec) mapHas(st *State, ref, key Term, m *types.Map) Term {
+	dom, _, _ := x.mapNames(m)
+	domArr := x.heapGet(st, dom, SArr(SInt, SArr(x.sortOf(m.Key()), SBool)))
+	return And(Neq(ref, IntLit(0)), Select(Select(domArr, ref), key))
 }
